@@ -459,6 +459,7 @@ func (prop) Run(t *testing.T, tape *kernel.Tape, sc kernel.Scenario) *kernel.Res
 	}
 	useAuth := tape.Bool(3, "client-auth")
 	getBodyCalls := 1 + tape.Choose(3, "getbody-calls")
+	inspect := tape.Bool(2, "auth-writer-inspects-the-request")
 	if useAuth {
 		env.Fault("client-auth-getbody")
 	}
@@ -555,6 +556,9 @@ func (prop) Run(t *testing.T, tape *kernel.Tape, sc kernel.Scenario) *kernel.Res
 		}
 		if useAuth {
 			cop.AuthInfo = runtime.ClientAuthInfoWriterFunc(func(req runtime.ClientRequest, _ strfmt.Registry) error {
+				if inspect {
+					simhttp.Inspect(req)
+				}
 				for i := 0; i < getBodyCalls; i++ {
 					_ = req.GetBody()
 				}
